@@ -3,6 +3,7 @@
 -/
 import NPModel.Driver.Ops
 import NPModel.Spec.Frame
+import NPModel.Impl.Dtype
 open Lean
 namespace NP
 
@@ -139,6 +140,17 @@ def runFrameOp (op : String) (j : Json) : P (Json × Json) := do
     let subset ← optOf (listOf (listOf strOf)) (fldD j "subset" .null)
     let enc : Target → Json := fun t => match t with | .base => .str "base" | .nest n => Json.mkObj [("nest", .str n)]
     pure (resJson (enc <$> resolveDropnaTarget nested on subset), .null)
+  | "dtype.parse" => do
+    let str ← strOf (← fld j "string")
+    let table ← listOf (fun p => do let a ← arrOf p; pure ((← strOf a[0]!).toList, ← strOf a[1]!)) (← fld j "aliases")
+    let alias? : Str → Option String := fun s => (table.find? (·.1 == s)).map (·.2)
+    let enc := fun (d : List (Str × String)) => jList (fun (p : Str × String) => Json.arr #[.str (String.ofList p.1), .str p.2]) d
+    pure (match constructFromString alias? str.toList with
+      | .ok d => Json.mkObj [("ok", enc d)]
+      | .error _ => Json.mkObj [("err", .str "TypeError")], .null)
+  | "dtype.name" => do
+    let fields ← listOf (fun p => do let a ← arrOf p; pure ((← strOf a[0]!).toList, ← strOf a[1]!)) (← fld j "fields")
+    pure (Json.mkObj [("ok", .str (String.ofList (dtypeName (fun (t : String) => t.toList) fields)))], .null)
   | "frame.sort" => do
     let F ← frameOfJson (← fld j "frame")
     let nest ← strOf (← fld j "nest")
@@ -190,7 +202,7 @@ def handleLine2 (line : String) : String :=
     let id := fldD j "id" .null
     match (do
         let op ← strOf (← fld j "op")
-        if op.startsWith "frame." then runFrameOp op j else runOp op j : P (Json × Json)) with
+        if op.startsWith "frame." || op.startsWith "dtype." then runFrameOp op j else runOp op j : P (Json × Json)) with
     | .ok (m, sp) => (Json.mkObj [("id", id), ("model", m), ("spec", sp)]).compress
     | .error e => (Json.mkObj [("id", id), ("bad", .str e)]).compress
 
